@@ -11,6 +11,7 @@ package main
 import (
 	"bytes"
 	"fmt"
+	"go/ast"
 	"go/constant"
 	"go/token"
 	"regexp"
@@ -353,6 +354,35 @@ func init() {
 		b = c13body("", "createUInt32LEBuffer")
 		if !strings.Contains(b, `buf := make([]byte, bufferSize) binary.LittleEndian.PutUint32(buf, uint32(value))`) {
 			fail("createUInt32LEBuffer")
+		}
+		// the hash is a pure function of its input in the model: `hashing` must allocate its hash objects per
+		// call (no package-level hash state shared between key derivations, which would also be shared between
+		// goroutines), and standardXORBytes must not modify its arguments (hFinal is used for X1 and X2)
+		b = c13body("", "hashing")
+		perCall := strings.Contains(b, `hashMap := map[string]hash.Hash{ "md4": md4.New(), "md5": md5.New(), "ripemd-160": ripemd160.New(), "sha1": sha1.New(), "sha256": sha256.New(), "sha384": sha512.New384(), "sha512": sha512.New(), }`) &&
+			strings.Contains(b, `handler, ok := hashMap[strings.ToLower(hashAlgorithm)] if !ok { return key } for _, buf := range buffer { _, _ = handler.Write(buf) } key = handler.Sum(nil)`)
+		if f, ok := files["crypt.go"]; ok {
+			for _, d := range f.Decls {
+				gd, isGen := d.(*ast.GenDecl)
+				if !isGen || gd.Tok != token.VAR {
+					continue
+				}
+				txt := c13ws.ReplaceAllString(src(gd), " ")
+				if strings.Contains(txt, "hash.Hash") || regexp.MustCompile(`(md4|md5|ripemd160|sha1|sha256|sha512)\.New`).MatchString(txt) {
+					perCall = false
+				}
+			}
+		}
+		if perCall {
+			w.WriteString("def hashingPerCall : Bool := true  -- hashing: hash objects allocated per call, no package-level hash state\n")
+		} else {
+			w.WriteString("def hashingPerCall : Bool := false  -- hashing: hash state is shared between calls (package level) or the body changed\n")
+		}
+		b = c13body("", "standardXORBytes")
+		if strings.Contains(b, `buf := make([]byte, len(a)) for p, q := range r { buf[p] = q[0] ^ q[1] } return buf`) && !regexp.MustCompile(`\ba\[[^\]]*\] *(\^|=[^=])`).MatchString(strings.SplitN(b, "{", 2)[1]) {
+			w.WriteString("def xorBytesPure : Bool := true  -- standardXORBytes returns a fresh slice and does not write to its arguments\n")
+		} else {
+			w.WriteString("def xorBytesPure : Bool := false  -- standardXORBytes writes to an argument or its body changed\n")
 		}
 		// OpenReader: error mapping (model XlModel.Crypt.openReader)
 		b = c13body("", "OpenReader")
